@@ -5,13 +5,15 @@ import (
 	"os"
 	"testing"
 
+	"github.com/pojntfx/stfs/pkg/cache"
 	"github.com/pojntfx/stfs/pkg/config"
+	"github.com/pojntfx/stfs/pkg/fs"
+	"path/filepath"
 )
 
-// Open C14 findings: these tests document the behaviour, PASS while the defect is present and Skip when it is gone.
-
-// C14-write-cache-overwrite-truncates-tail
-func TestKnown_C14_OverwriteTruncatesTail(t *testing.T) {
+// fixed: C14-write-cache-overwrite-truncates-tail: the memory write cache dropped the tail on an overwrite and did not
+// zero-fill a gap
+func TestFinding_C14_MemoryCacheOverwritesInPlace(t *testing.T) {
 	e := newFS(t, "", false, config.PipeConfig{})
 	e.init(t)
 	writeFile(t, e.stfs, "/f", "pqr")
@@ -23,23 +25,46 @@ func TestKnown_C14_OverwriteTruncatesTail(t *testing.T) {
 		t.Fatal(err)
 	}
 	h.Close()
-	c, _ := readFile(t, e.stfs, "/f")
-	if c == "Xqr" {
-		t.Skip("defect no longer present")
+	if c, _ := readFile(t, e.stfs, "/f"); c != "Xqr" {
+		t.Errorf("content after overwriting the first byte of \"pqr\": %q, want \"Xqr\"", c)
 	}
-	t.Logf("content after overwriting the first byte of \"pqr\": %q", c)
+	h, err = e.stfs.OpenFile("/f", os.O_RDWR, 0)
+	if err != nil {
+		t.Fatal(err)
+	}
+	if _, err := h.WriteAt([]byte("Z"), 5); err != nil {
+		t.Fatal(err)
+	}
+	h.Close()
+	if c, _ := readFile(t, e.stfs, "/f"); c != "Xqr\x00\x00Z" {
+		t.Errorf("content after WriteAt(\"Z\", 5) on \"Xqr\": %q, want \"Xqr\\x00\\x00Z\"", c)
+	}
 }
 
-// C14-entering-write-mode-resets-cursor
-func TestKnown_C14_WriteAfterReadRewinds(t *testing.T) {
+// newFileCacheFS is newFS with the file-backed write cache (an *os.File, which overwrites in place), so that the
+// handle's own cursor logic is observable independently of the open finding about the memory write cache.
+func newFileCacheFS(t *testing.T) *env {
 	e := newFS(t, "", false, config.PipeConfig{})
+	dir := e.dir
+	md := config.MetadataConfig{Metadata: e.p}
+	e.stfs = fs.NewSTFS(e.readOps, e.writeOps, md, config.CompressionLevelFastestKey,
+		func() (cache.WriteCache, func() error, error) {
+			return cache.NewCacheWrite(filepath.Join(dir, "wc"), config.WriteCacheTypeFile)
+		},
+		false, false, func(*config.Header) {}, stfsLogger{})
+	return e
+}
+
+// fixed: C14-entering-write-mode-resets-cursor (bcfa786)
+func TestFinding_C14_WriteAfterReadKeepsOffset(t *testing.T) {
+	e := newFileCacheFS(t)
 	e.init(t)
 	writeFile(t, e.stfs, "/f", "pqr")
 	h, err := e.stfs.OpenFile("/f", os.O_RDWR, 0)
 	if err != nil {
 		t.Fatal(err)
 	}
-	buf := make([]byte, 3)
+	buf := make([]byte, 1)
 	if _, err := io.ReadFull(h, buf); err != nil {
 		t.Fatal(err)
 	}
@@ -47,15 +72,13 @@ func TestKnown_C14_WriteAfterReadRewinds(t *testing.T) {
 		t.Fatal(err)
 	}
 	h.Close()
-	c, _ := readFile(t, e.stfs, "/f")
-	if c == "pqrX" {
-		t.Skip("defect no longer present")
+	if c, _ := readFile(t, e.stfs, "/f"); c != "pXr" {
+		t.Errorf("content after Read(1) then Write(\"X\") on \"pqr\": %q, want \"pXr\"", c)
 	}
-	t.Logf("content after Read(3) then Write(\"X\") on \"pqr\": %q (want \"pqrX\")", c)
 }
 
-// C14-seek-beyond-eof-loses-cursor
-func TestKnown_C14_SeekBeyondEOFLosesCursor(t *testing.T) {
+// fixed: C14-seek-beyond-eof-loses-cursor (c69795c)
+func TestFinding_C14_SeekBeyondEOFKeepsRequestedOffset(t *testing.T) {
 	e := newFS(t, "", false, config.PipeConfig{})
 	e.init(t)
 	writeFile(t, e.stfs, "/f", "pq")
@@ -66,8 +89,78 @@ func TestKnown_C14_SeekBeyondEOFLosesCursor(t *testing.T) {
 	defer h.Close()
 	h.Seek(5, io.SeekStart)
 	off, err := h.Seek(0, io.SeekCurrent)
-	if err == nil && off == 5 {
-		t.Skip("defect no longer present")
+	if err != nil || off != 5 {
+		t.Errorf("Seek(0, Current) after Seek(5, Start) on 2 bytes = %d, %v; want 5", off, err)
 	}
-	t.Logf("Seek(0, Current) after Seek(5, Start) on 2 bytes = %d, %v (want 5)", off, err)
+	off, err = h.Seek(-1, io.SeekCurrent)
+	if err != nil || off != 4 {
+		t.Errorf("Seek(-1, Current) from 5 = %d, %v; want 4", off, err)
+	}
+}
+
+// fixed: C14-append-handle-writes-at-cursor (93c9e52)
+func TestFinding_C14_AppendHandleWritesAtEnd(t *testing.T) {
+	e := newFileCacheFS(t)
+	e.init(t)
+	writeFile(t, e.stfs, "/f", "pqr")
+	h, err := e.stfs.OpenFile("/f", os.O_RDWR|os.O_APPEND, 0)
+	if err != nil {
+		t.Fatal(err)
+	}
+	if _, err := h.Write([]byte("X")); err != nil {
+		t.Fatal(err)
+	}
+	if _, err := h.Seek(0, io.SeekStart); err != nil {
+		t.Fatal(err)
+	}
+	if _, err := h.Write([]byte("Y")); err != nil {
+		t.Fatal(err)
+	}
+	h.Close()
+	if c, _ := readFile(t, e.stfs, "/f"); c != "pqrXY" {
+		t.Errorf("content after append, seek to 0, append on \"pqr\": %q, want \"pqrXY\"", c)
+	}
+}
+
+// fixed: C14-writeat-moves-cursor (dc796db)
+func TestFinding_C14_WriteAtKeepsOffset(t *testing.T) {
+	e := newFileCacheFS(t)
+	e.init(t)
+	writeFile(t, e.stfs, "/f", "pqrs")
+	h, err := e.stfs.OpenFile("/f", os.O_RDWR, 0)
+	if err != nil {
+		t.Fatal(err)
+	}
+	if _, err := h.WriteAt([]byte("Z"), 2); err != nil {
+		t.Fatal(err)
+	}
+	if off, err := h.Seek(0, io.SeekCurrent); err != nil || off != 0 {
+		t.Errorf("offset after WriteAt(_, 2) on a fresh handle = %d, %v; want 0", off, err)
+	}
+	if _, err := h.Write([]byte("A")); err != nil {
+		t.Fatal(err)
+	}
+	h.Close()
+	if c, _ := readFile(t, e.stfs, "/f"); c != "AqZs" {
+		t.Errorf("content after WriteAt(\"Z\",2), Write(\"A\") on \"pqrs\": %q, want \"AqZs\"", c)
+	}
+}
+
+// fixed: C14-otrunc-takes-effect-only-on-write (d0cf1c6)
+func TestFinding_C14_OTruncHandleReadsEmpty(t *testing.T) {
+	e := newFS(t, "", false, config.PipeConfig{})
+	e.init(t)
+	writeFile(t, e.stfs, "/f", "hello")
+	h, err := e.stfs.OpenFile("/f", os.O_RDWR|os.O_TRUNC, 0)
+	if err != nil {
+		t.Fatal(err)
+	}
+	b, _ := io.ReadAll(h)
+	if len(b) != 0 {
+		t.Errorf("read %q through a handle opened with O_TRUNC, want nothing", b)
+	}
+	h.Close()
+	if c, _ := readFile(t, e.stfs, "/f"); c != "" {
+		t.Errorf("content after OpenFile(O_TRUNC)+Close: %q, want empty", c)
+	}
 }
